@@ -93,11 +93,11 @@ public:
             TEAKRA_VERIF_YIELD(Verif::InterpreterAfterLatchSample);
 #endif
 
-            u16 opcode = mem.ProgramRead((regs.pc++) | (regs.prpage << 18));
+            u16 opcode = mem.ProgramRead((regs.pc++) | ((u32)regs.prpage << 18));
             auto& decoder = decoders[opcode];
             u16 expand_value = 0;
             if (decoder.NeedExpansion()) {
-                expand_value = mem.ProgramRead((regs.pc++) | (regs.prpage << 18));
+                expand_value = mem.ProgramRead((regs.pc++) | ((u32)regs.prpage << 18));
             }
 
             if (regs.rep) {
